@@ -305,6 +305,8 @@ C01.defined: wherever constraints_and_type_name renders a component with the `<P
     defined(m, ctx, "C01.defined");
     // names that are referred to are the names that are generated (shared with C02.defname)
     crate::rules::c02::defname(m, ctx, "C01.defname");
+    // the type of a component and the type of its DEFAULT function / value are chosen by two selectors (shared with C06.agree)
+    crate::rules::c06::agree(m, ctx, "C01.agree");
 }
 
 /// C01.defined: a component's type is rendered by `constraints_and_type_name`, which names an anonymous inner type
